@@ -109,7 +109,8 @@ class Scenario:
             known = [tickets[k] + (aas[self.aa_of[k]],) for k in preload.get(i, [])]
             ka = opts.get("knows_aa", {}).get(i, sorted(aas))
             r = self.net.station(0x0A0B0C0D2000 + i, own=tickets[i], known=known, reg=self.reg,
-                                 aas=[(aas[a], self.net.root) for a in ka], own_issuer=aas[self.aa_of[i]], ego=self.pos)
+                                 aas=[(aas[a], self.net.root) for a in ka], own_issuer=aas[self.aa_of[i]],
+                                 ego=opts.get("pos_of", {}).get(i, self.pos))
             s = Sta()
             s.i, s.r, s.own, s.joined = i, r, tickets[i], False
             s.knows_aa = list(ka)
@@ -182,9 +183,16 @@ def send(ctx, sc_: Scenario, i: int, kind: str, data: bytes, t_ms: int, tag: str
         ctx.property_failure("honest_sign_failed", inp, f"signing an honest {kind} failed: {err}, {len(s.r['ll'].sent)} packets")
         return
     frame = s.r["ll"].sent[0]
-    d = sc.dec_data(frame[4:])
-    sd = d["content"][1]
-    hi = sd["tbsData"]["headerInfo"]
+    try:
+        assert (frame[0] & 0x0F) == 2, "next header is not SECURED_PACKET"
+        d = sc.dec_data(frame[4:])
+        assert d["content"][0] == "signedData", "content is not signedData"
+        sd = d["content"][1]
+        hi = sd["tbsData"]["headerInfo"]
+    except Exception as e:  # noqa: BLE001
+        ctx.property_failure("honest_not_secured", inp, f"the packet emitted for an honest {kind} with security enabled is not a "
+                             f"signed secured packet: {e}", "EtsiTs103097Data-Signed after a basic header with NH = 2", frame[:12].hex())
+        return
     plain = sd["tbsData"]["payload"]["data"]["content"][1]
     signer = sd["signer"][0]
     # ---- profile oracle (TS 103 097 clause 7.1), independent of the model --------------------------
@@ -545,6 +553,19 @@ def positions_psids_ssp(ctx, positions, psid_sets):
                      opts={"pos": pos, "apps": apps, "ssp": k % 2 == 0, "aa_of": {0: 2, 1: 2, 2: 2}, "more_psids": BIG_PSIDS})
 
 
+def denm_from_outside(ctx, offsets):
+    """the DENM originator stands outside the destination area (non-area forwarding branch of the GeoBroadcast source
+    operations: the secured payload is handed to the next hop), the receivers inside it"""
+    for k, (dlat, dlon) in enumerate(offsets):
+        pos = POSITIONS[k % 3]
+        ev = [(t, 1, "cam", bytes([1, t // 300 % 256])) for t in range(0, 3000, 300)]
+        ev += [(t, 2, "cam", bytes([2, t // 400 % 256])) for t in range(110, 3000, 400)]
+        ev += [(t, 0, "cam", bytes([0, t // 500 % 256])) for t in range(220, 3000, 500)]
+        ev += [(900, 0, "denm", b"\x11\x12"), (1700, 0, "denm", b"\x13"), (2500, 0, "denm", b"\x14\x15\x16")]
+        run_schedule(ctx, 3, {}, {0: 0, 1: 0, 2: 0}, ev, f"denm_from_outside/{pos}/{(dlat, dlon)}",
+                     opts={"pos": pos, "pos_of": {0: (pos[0] + dlat, pos[1] + dlon)}})
+
+
 def validity_start(ctx):
     """a ticket whose validity period starts exactly at the generation time of the station's first message (and one
     millisecond before it): honest from its first microsecond"""
@@ -584,6 +605,7 @@ def run(ctx):
     pp = [BIG_PSIDS[:3], BIG_PSIDS[3:6], BIG_PSIDS[6:]]
     positions_psids_ssp(ctx, POSITIONS[:3] if quick else POSITIONS, pp)
     validity_start(ctx)
+    denm_from_outside(ctx, [(100000, 0)] if quick else [(100000, 0), (0, -150000), (-20000, 20000), (3000, 0)])
     for k in range(5 if quick else 60):
         random_schedule(ctx, k)
     ctx.exhaustive = False
